@@ -16,7 +16,10 @@ Oracle : (independent of the model) payloads tagged with their circuit leave onl
          correctly signed by the neighbour stored for that id (matrix id x sender x signature x table role); when a
          third party's create under the same id is dispatched back-to-back with a genuine create (no event-loop
          turn in between, both orders, first hop and extend hop) the entry made for the first one is not replaced,
-         only the first sender gets a created, and the genuine circuit still carries data both ways.
+         only the first sender gets a created, and the genuine circuit still carries data both ways; after a
+         re-extend to another exit, the slow first exit's stale created (cache still pending), a created with an
+         unknown identifier and duplicates of the genuine created leave the relay entries of the established circuit
+         untouched (object identity, keys, next hop) and its data still leaves through its own exit.
 """
 from __future__ import annotations
 
@@ -584,6 +587,99 @@ async def create_race(ctx, tn, loop, book, r):
     return n
 
 
+async def stale_created(ctx, tn, loop, book, r):
+    """a slow first exit: the originator re-extends the same partial circuit to another exit, the circuit X becomes
+    ready, and then answers arrive that must not touch X's relay entries: the first exit's stale created (its
+    CreateRequestCache still pending), a created with an unknown identifier / other id, duplicates of the genuine one"""
+    n = 0
+    o = tn.origin
+    exits = [ov for nm, ov in tn.nodes.items() if nm.startswith("exit")]
+    for variant in ("stale-after-handover", "stale-in-handover-window", "unknown-identifier", "duplicate-genuine", "duplicate-genuine-late"):
+        c = o.create_circuit(2, exit_flags=[2])
+        if c is None:
+            ctx.broke("stale-created: circuit not started")
+            return n
+        evs, stale = [], None
+        for _ in range(60):
+            if tn.net.queue:
+                s_, d_, x_ = tn.net.queue[0]
+                if tn.is_cell(x_) and x_[27] != 0 and x_[29] == 3 and tuple(d_) != tuple(o.my_peer.address):
+                    stale = tn.net.queue.popleft()       # the first exit's created is slow
+                    break
+                await tn.drain_c(evs, limit=1)
+            else:
+                await tn.settle_tasks()
+                if not tn.net.queue:
+                    break
+        book.add_all(evs, {"kind": "build"})
+        if stale is None:
+            ctx.broke("stale-created: no created to hold back")
+            return n
+        e1, rnode = tn.by_addr[tuple(stale[0])], tn.by_addr[tuple(stale[1])]
+        e2 = next(x for x in exits if x is not e1)
+        kb2 = e2.my_peer.public_key.key_to_bin()
+        cache = rnode.request_cache.get("created", c.circuit_id)
+        if cache is not None and kb2 not in cache.candidates:
+            from ipv8.peer import Peer
+            cache.candidates[kb2] = Peer(kb2, e2.my_peer.address)
+        c.required_exit = None
+        o.send_extend(c, [kb2], 1)                      # the originator gives up on the first exit (cf. test_reuse_partial_circuit)
+        evs, genuine = [], None
+        for _ in range(80):
+            if tn.net.queue:
+                s_, d_, x_ = tn.net.queue[0]
+                if tn.is_cell(x_) and x_[27] != 0 and x_[29] == 3 and tuple(s_) == tuple(e2.my_peer.address):
+                    genuine = tn.net.queue[0]
+                await tn.drain_c(evs, limit=1)
+            else:
+                await tn.settle_tasks()
+                if c.state == "READY" or not tn.net.queue:
+                    break
+        book.add_all(evs, {"kind": "re-extend"})
+        path = c04.path_of(tn, c)
+        if c.state != "READY" or len(path) != 2 or path[-1][0] is not e2:
+            ctx.broke("stale-created: the re-extended circuit did not become ready over the second exit")
+            return n
+        late = variant in ("stale-after-handover", "duplicate-genuine-late", "unknown-identifier")
+        if late:
+            evs = []
+            await tn.tick(loop, 6, evs)                  # hand-over window over, the first extend's cache (10 s) still pending
+            book.add_all(evs, {"kind": "tick"})
+        before = entry_ids(tn)[rnode._verif_name]
+        if variant.startswith("stale"):
+            item = stale
+        elif variant == "unknown-identifier":
+            x_ = stale[2]
+            item = (stale[0], stale[1], x_[:23] + r.randbytes(4) + x_[27:30] + r.randbytes(2) + x_[32:])
+        else:
+            item = genuine
+        if item is None:
+            ctx.broke("stale-created: nothing to deliver for %s" % variant)
+            return n
+        meta = {"kind": "stale-created", "variant": variant,
+                "what": "%s created delivered to the relay of an established, re-extended circuit" % variant}
+        evs = [await tn.event(*item)]
+        await tn.drain_c(evs)
+        book.add_all(evs, meta)
+        n += 1
+        ctx.count(("stale-created", variant), nontrivial=True)
+        after = entry_ids(tn)[rnode._verif_name]
+        changed = before[1] != after[1] or c04.path_of(tn, c)[-1][0] is not e2
+        if changed:
+            ctx.violation("stale-created/relay-entry-replaced", "%s: the relay entries of the established circuit changed "
+                          "(forward route now towards %s)" % (meta["what"], c04.path_of(tn, c)[-1][0]._verif_name), meta)
+        elif not await transfer_check(ctx, tn, book, r, [c], dict(meta, what="data both ways on the re-extended circuit afterwards"), rounds=2):
+            ctx.violation("stale-created/circuit-cut-off", "%s: the circuit no longer carries data through its own exit" % meta["what"], meta)
+        evs = []
+        book.add(await tn.local(o, "ORemoveCircuit %d 1" % c.circuit_id, lambda: o.remove_circuit(c.circuit_id, "done", remove_now=True, destroy=1)), meta)
+        await tn.drain_c(evs)
+        for _ in range(3):
+            await tn.tick(loop, 5, evs)
+            await tn.drain_c(evs)
+        book.add_all(evs, {"kind": "teardown"})
+    return n
+
+
 async def create_in_use(ctx, tn, loop, book, r):
     """a create under an id that is live in some table of the receiver"""
     from ipv8.messaging.anonymization.payload import CreatePayload
@@ -771,6 +867,15 @@ async def _run(ctx, loop):
     finally:
         await tn.stop()
     evaluate(ctx, tn, book, "race")
+    # ---- 2c: stale / unknown / duplicate created at the relay of a re-extended circuit
+    tn = CNet(n_relays=1, n_exits=2, exit_flags=(2, 4, 8))
+    await tn.start()
+    book = Book(ctx)
+    try:
+        stats["stale_created"] = await stale_created(ctx, tn, loop, book, r)
+    finally:
+        await tn.stop()
+    evaluate(ctx, tn, book, "stale")
     # ---- 3: destroy matrix
     tn = CNet(n_relays=3, n_exits=2, exit_flags=(2, 4, 8))
     await tn.start()
@@ -827,6 +932,8 @@ async def replay_case(case, loop):
             await create_in_use(ctx, tn, loop, book, r)
         elif kind == "create-race":
             await create_race(ctx, tn, loop, book, r)
+        elif kind == "stale-created":
+            await stale_created(ctx, tn, loop, book, r)
         elif kind == "destroy":
             await destroy_matrix(ctx, tn, loop, book, r)
         else:
@@ -887,6 +994,6 @@ def run(ctx):
                             "tagged data both ways on all circuits at once with deliveries in random order (thorough: 6 networks, 4-6 circuits, 300 rounds); "
                             "forged cells (unknown id / garbage / other circuit's body / outsider keys) at every entry of every circuit; creates under live "
                             "relay-in / relay-out / exit / own-circuit ids within and after the 60 s cache; same-id creates dispatched back-to-back with a genuine create "
-                            "(first hop / extend hop x both orders); destroy matrix {own, other, unknown id} x {adjacent, "
+                            "(first hop / extend hop x both orders); re-extended circuit + stale / unknown / duplicate created; destroy matrix {own, other, unknown id} x {adjacent, "
                             "other member, outsider} x {signature ok, bad, key substituted} x {relay-in, relay-out, exit, circuit} + the legitimate destroys; "
                             "every delivered datagram / timer advance is one lockstep case; distinct = distinct scenario parameters")
